@@ -8,7 +8,8 @@
     every run (whole parent compared before / after, nested receivers included). *)
 From Coq Require Import Sorted.
 From TD Require Import Base.Prelude Model.Iter Model.View Model.Ops
-  Proofs.ViewGeom Proofs.CellsGeom Proofs.Frame Proofs.OpsProofs.
+  Proofs.ViewGeom Proofs.CellsGeom Proofs.Frame Proofs.OpsProofs Proofs.FlipProofs Proofs.CopyProofs
+  Proofs.TranslateProofs Proofs.SwapTrace Proofs.SortProofs.
 
 (** the frame: fill and the swap family write only to cells of the receiver *)
 Theorem C04_frame_fill_and_swaps :
@@ -43,6 +44,69 @@ Proof.
       [exfalso; apply Hi, v_cell_in_view; lia|]. reflexivity.
 Qed.
 Print Assumptions C04_frame_fill_and_swaps.
+
+(** the frame of every other trait operation: copies, translate, flips, sorts - whenever the
+    call returns, the cells outside the receiver are untouched (for each of them the exact
+    effect inside is the statement of C14, C15, C16, C17, given purely by view coordinates,
+    hence the same for a view and for an owned array holding the same cells) *)
+Theorem C04_frame_copy_translate_flip_sort :
+  forall v b, wf_view v -> fits v b ->
+  (forall k src b', (k = KOwned -> vstride v = vcols v) ->
+     op_copy_from_slice k v b src = Ok b' -> forall i, ~ in_view v i -> nth_error b' i = nth_error b i) /\
+  (forall mc mr b', op_translate v b mc mr = Ok b' -> forall i, ~ in_view v i -> nth_error b' i = nth_error b i) /\
+  (forall b', op_flip_rows v b = Ok b' -> forall i, ~ in_view v i -> nth_error b' i = nth_error b i) /\
+  (forall b', op_flip_cols v b = Ok b' -> forall i, ~ in_view v i -> nth_error b' i = nth_error b i).
+Proof.
+  intros v b Hwf Hb. repeat split.
+  - intros k src b' Hk E.
+    destruct (Nat.eq_dec (length src) (vcols v * vrows v)) as [Hl|Hl].
+    + destruct (op_copy_from_slice_spec k v b src Hwf Hb Hk Hl) as [b1 [E1 [_ [Hout _]]]].
+      rewrite E in E1. inversion E1; subst b1. exact Hout.
+    + rewrite (op_copy_from_slice_reject k v b src Hwf Hk Hl) in E. discriminate.
+  - intros mc mr b' E.
+    destruct (N.leb_spec mc (N.of_nat (vcols v))); [destruct (N.leb_spec mr (N.of_nat (vrows v)))|].
+    + destruct (op_translate_spec v b mc mr Hwf Hb) as [b1 [E1 [_ [Hout _]]]]; [assumption|assumption|].
+      rewrite E in E1. inversion E1; subst b1. exact Hout.
+    + rewrite op_translate_reject in E by (right; assumption). discriminate.
+    + rewrite op_translate_reject in E by (left; assumption). discriminate.
+  - intros b' E. destruct (op_flip_rows_spec v b Hwf Hb) as [b1 [E1 [_ [Hout _]]]].
+    rewrite E in E1. inversion E1; subst b1. exact Hout.
+  - intros b' E. destruct (op_flip_cols_spec v b Hwf Hb) as [b1 [E1 [_ [Hout _]]]].
+    rewrite E in E1. inversion E1; subst b1. exact Hout.
+Qed.
+Print Assumptions C04_frame_copy_translate_flip_sort.
+
+(** copy_within and the sorts: frame (statements of C14 / C16 / C17, restated) *)
+Theorem C04_frame_copy_within :
+  forall oc v b (x0 y0 x1 y1 dx dy : N), wf_view v -> fits v b ->
+  (x0 <= x1)%N -> (y0 <= y1)%N -> (x1 <= N.of_nat (vcols v))%N -> (y1 <= N.of_nat (vrows v))%N ->
+  (dx + (x1 - x0) <= N.of_nat (vcols v))%N -> (dy + (y1 - y0) <= N.of_nat (vrows v))%N ->
+  (N.of_nat (vcols v) < W)%N -> (N.of_nat (vrows v) < W)%N ->
+  exists b', op_copy_within oc v b x0 y0 x1 y1 dx dy = Ok b' /\
+    (forall i, ~ in_view v i -> nth_error b' i = nth_error b i).
+Proof.
+  intros. destruct (op_copy_within_spec oc v b x0 y0 x1 y1 dx dy) as [b' [E [_ [Hout _]]]]; try assumption.
+  exists b'. split; assumption.
+Qed.
+Print Assumptions C04_frame_copy_within.
+
+Theorem C04_frame_sorts :
+  forall k v b (line : N) stable by_key (sigma : list nat), wf_view v -> fits v b ->
+  (k = KOwned -> vstride v = vcols v) ->
+  ((line < N.of_nat (vrows v))%N -> (stable = false -> Permutation.Permutation sigma (seq 0 (vcols v))) ->
+     exists b', op_sort_by_row v b line stable by_key sigma = Ok b' /\
+                (forall i, ~ in_view v i -> nth_error b' i = nth_error b i)) /\
+  ((line < N.of_nat (vcols v))%N -> (stable = false -> Permutation.Permutation sigma (seq 0 (vrows v))) ->
+     exists b', op_sort_by_col k v b line stable by_key sigma = Ok b' /\
+                (forall i, ~ in_view v i -> nth_error b' i = nth_error b i)).
+Proof.
+  intros k v b line stable by_key sigma Hwf Hb Hk. split.
+  - intros Hl Hs. destruct (op_sort_by_row_spec v b line stable by_key sigma Hwf Hb Hl Hs) as [_ [b' [E [_ [Hout _]]]]].
+    exists b'. split; assumption.
+  - intros Hl Hs. destruct (op_sort_by_col_spec k v b line stable by_key sigma Hwf Hb Hk Hl Hs) as [_ [b' [E [_ [Hout _]]]]].
+    exists b'. split; assumption.
+Qed.
+Print Assumptions C04_frame_sorts.
 
 (** inside the rectangle the effect is the one the same call has on an owned array holding
     the same cells *)
